@@ -82,6 +82,10 @@ def docs():
         {"a": {"a": {"a": 2}}, "b": [{"a": 3}, {"b": 4}]},
         [],
         {},
+        # member names that begin with a reserved word, or with the filter-context identifier, followed by further name
+        # characters (docs/syntax.md reserves only names that match a word exactly)
+        {"in-stock": 1, "and-so": 2, "true-north": 3, "null-x": 4, "nil-z": 5, "or-else": 6, "_foo": 7, "contains-x": 9,
+         "undefined-x": 10, "missing-y": 11, "False-w": 12, "None-q": 13, "not-x": 14, "arr": ["a/b", "ab", "a[/]b"]},
     ]
 
 
@@ -227,6 +231,16 @@ def alias_pairs():
                    ("$.arr[?@.a or 2]", "$.arr[?@.a || 2]"), ("$.arr[?@.* == nil]", "$.arr[?@.* == null]"),
                    ("$.arr[?True]", "$.arr[?true]"), ("$.arr[?not none]", "$.arr[?!null]")):
         out.append(("rejected:" + ("<>" if "<>" in a_ else "words"), a_, s_))
+    for nm in ("in-stock", "and-so", "true-north", "null-x", "nil-z", "or-else", "_foo", "contains-x", "undefined-x", "missing-y",
+               "False-w", "None-q", "not-x"):
+        out.append(("bare-names", "$[%s]" % nm, "$['%s']" % nm))
+        out.append(("bare-names", "$..[%s]" % nm, "$..['%s']" % nm))
+        out.append(("bare-names", "$[arr, %s]" % nm, "$['arr', '%s']" % nm))
+        out.append(("rootless", nm, "$['%s']" % nm))
+        out.append(("bare-names", "$[?@[%s] == 1 || $[%s] == 7]" % (nm, nm), "$[?@['%s'] == 1 || $['%s'] == 7]" % (nm, nm)))
+    # a regular-expression literal with an escaped slash
+    out.append(("regex-slash", "$.arr[?@ =~ /a\\/b/]", "$.arr[?match(@, 'a/b')]"))
+    out.append(("regex-slash", "$.arr[?@ =~ /a\\/b/ || @ =~ /a./]", "$.arr[?match(@, 'a/b') || match(@, 'a.')]"))
     out.append(("keys-shorthand", "$.o.~", "$.o[~]"))
     out.append(("keys-shorthand", "$..~", "$..[~]"))
     out.append(("in/contains", "$.arr[?@ in $.l]", "$.arr[?$.l contains @]"))
